@@ -235,3 +235,16 @@ prop("C19", level="exploration", bounded=True,
      note="Exploration level.",
      also=["LeaderFollowerIntersector"],
      trusted_base=[])
+
+prop("C20", level="exploration", bounded=True,
+     technique="bounded: a decoder written from the documented layouts only, applied to the real codec's output over an exhaustive small scope",
+     text="Bounded (not proved): every fiber over 4 coordinates x {U,C,B}; coordinate lists over 9 coordinates; every other (quick) / every (thorough) "
+          "depth-2 tree over 3 coordinates (explicit defaults, empty sub-fibers, all-zero tensor) x all 9 descriptors; seeded random depth-3 tensors x "
+          "random descriptors; each with and without an imposed larger shape. (1) A decoder written from the layouts alone (implicit positions, explicit "
+          "coordinates, bit masks, per-child cumulative occupancies as segment ends, fibers of a rank in depth-first order) must return exactly the "
+          "original content and consume every array completely; (2) leaf fibers are scanned through their own handle interface with a stub cache; "
+          "(3) coordToHandle of every C leaf for every query == first stored coordinate not below it; (4) getSize of leaf fibers == words of the layout. "
+          "No deductive part: Codec.encode recurses through dynamically chosen format classes appending to shared per-rank lists (DESIGN section 4 C20); "
+          "coordToHandle's binary search uses float division and math.ceil and is interleaved with cache/statistics dictionary updates.",
+     note="Exploration level. getSize is checked for leaf fibers only (for interior fibers the statement's 'payload entries' is ambiguous between child handles and none).",
+     trusted_base=[])
